@@ -330,7 +330,11 @@ Lemma arch_levels_status readmem af tgt mask fs va :
 Proof.
   intro Hrd. induction l as [|l IH]; intros tas tbase; cbn [arch_levels]; [reflexivity|].
   unfold rd_entry. destruct (readmem tas _) as [v|e] eqn:Er.
-  - destruct (af_decode af tgt fs (S l) _ va); try reflexivity. apply IH.
+  - destruct (af_decode af tgt fs (S l) _ va) as [a b|b sz|a b sh| |]; try reflexivity.
+    + apply IH.
+    + destruct (readmem a _) as [v2|e2] eqn:Er2.
+      * destruct (af_decode af tgt fs 1 _ va); reflexivity.
+      * cbn [fst]. eapply Hrd. exact Er2.
   - cbn [fst]. eapply Hrd. exact Er.
 Qed.
 
